@@ -9,7 +9,7 @@
 //!   impl_fn   {self_ty, name, trait?}                  method of an impl block; trait "-" = inherent only
 //!   impl      {self_ty, trait?, nth?}                  whole impl block
 //!   item      {item: enum|struct|const|static|type|trait|macro_rules|union, name}
-//!   in_fn     {fn: <fn|impl_fn locator>, what: let|match|macro_rules|expr_stmt, ...}
+//!   in_fn     {fn: <fn|impl_fn locator>, what: let|match|macro_rules|item, ...}
 //!               let:   {binds: "reset"}                the whole `let` statement
 //!               match: {nth: k} | {scrutinee: "text", arm0?: "first arm pattern", nth?}  a match expression (with arms)
 //!               macro_rules: {name}                    a local macro definition
@@ -187,8 +187,19 @@ struct Inner<'a> {
     stmt_macros: Vec<&'a syn::StmtMacro>,
     loops: Vec<(String, Span, Span)>, // kind, whole, body block
     closures: Vec<&'a syn::ExprClosure>,
+    items: Vec<(&'static str, String, Span)>, // nested items: kind, name, whole span (attributes included)
 }
 impl<'a> Visit<'a> for Inner<'a> {
+    fn visit_item_fn(&mut self, f: &'a syn::ItemFn) {
+        self.items.push(("fn", f.sig.ident.to_string(), f.span()));
+        syn::visit::visit_item_fn(self, f);
+    }
+    fn visit_item_struct(&mut self, f: &'a syn::ItemStruct) {
+        self.items.push(("struct", f.ident.to_string(), f.span()));
+    }
+    fn visit_item_enum(&mut self, f: &'a syn::ItemEnum) {
+        self.items.push(("enum", f.ident.to_string(), f.span()));
+    }
     fn visit_local(&mut self, l: &'a syn::Local) {
         self.lets.push(l);
         syn::visit::visit_local(self, l);
@@ -440,6 +451,17 @@ fn do_fragment(root: &str, spec: &Value) -> Result<Value, String> {
                     return Err(format!("local macro {}: {} matches", name, hits.len()));
                 }
                 let (a, e) = src.range(hits[0].span());
+                frag(&src, a, e)
+            }
+            "item" => {
+                // an item (fn / struct / enum) declared inside the host function, attributes included
+                let kind = loc["item"].as_str().ok_or("in_fn item without item kind")?;
+                let name = loc["name"].as_str().ok_or("in_fn item without name")?;
+                let hits: Vec<_> = inner.items.iter().filter(|(k, n, _)| *k == kind && n == name).collect();
+                if hits.len() != 1 {
+                    return Err(format!("local {} {}: {} matches", kind, name, hits.len()));
+                }
+                let (a, e) = src.range(hits[0].2);
                 frag(&src, a, e)
             }
             w => return Err(format!("unknown in_fn what={w}")),
